@@ -30,10 +30,10 @@ RecEnd(i)  == Num(i, OutPos(i), 1)
 RecBase(i) == Num(i, OutPos(i) + 1, 4)
 RecLen(i)  == (NDigits(i) - OutPos(i) - 4) \div 11
 RecVal(i, j) == CaseVals[Num(i, OutPos(i) + 5 + 11 * (j - 1), 3)]
-RecTok(i, j) ==
-    LET p  == OutPos(i) + 5 + 11 * (j - 1)
-        kv == CaseVals[Num(i, p, 3)]
-    IN  << kv[1], kv[2], Num(i, p + 3, 2), Num(i, p + 5, 2), Num(i, p + 7, 2), Num(i, p + 9, 2) >>
+RecTokAt(i, p) ==                        \* the recorded token whose 11 digits start at position p
+    << CaseVals[Num(i, p, 3)][1], CaseVals[Num(i, p, 3)][2],
+       Num(i, p + 3, 2), Num(i, p + 5, 2), Num(i, p + 7, 2), Num(i, p + 9, 2) >>
+RecTok(i, j) == Let1(OutPos(i) + 5 + 11 * (j - 1), LAMBDA p : RecTokAt(i, p))
 
 -----------------------------------------------------------------------------
 KindCode(k) == CASE k \in {"sym", "kw"} -> 1
@@ -74,9 +74,8 @@ Judge ==
       [] out.t = "tok" ->
             (IF ntok > RecLen(inp)
                 THEN Bad("extra-token", Flat(out), <<RecEnd(inp)>>)
-             ELSE IF Flat(out) # RecTok(inp, ntok)
-                THEN Bad("token", Flat(out), RecTok(inp, ntok))
-             ELSE "run")
+             ELSE Let1(<< Flat(out), RecTok(inp, ntok) >>,
+                       LAMBDA t : IF t[1] # t[2] THEN Bad("token", t[1], t[2]) ELSE "run"))
       [] out.t = "eof"      -> Finished(0)
       [] out.t = "error"    -> Finished(1)
       [] out.t = "dontcare" -> DontCare
@@ -101,17 +100,21 @@ TStart == /\ verdict = "idle"
 Running == verdict = "run"
 Judged  == verdict' = Judge'
 
-(* one wrapper per Lexer action so that TLC's coverage counts them separately *)
-TSkipLinebreak      == Running /\ SkipLinebreak /\ Judged
-TSkipToToken        == Running /\ SkipToToken /\ Judged
-TSkipToMurky        == Running /\ SkipToMurky /\ Judged
-TAtEnd              == Running /\ AtEnd /\ Judged
-TReadSymbol         == Running /\ ReadSymbol /\ Judged
-TReadIdentOrKeyword == Running /\ ReadIdentOrKeyword /\ Judged
-TReadInt            == Running /\ ReadInt /\ Judged
-TReadString         == Running /\ ReadString /\ Judged
-TReadChar           == Running /\ ReadChar /\ Judged
-TNoReader           == Running /\ NoReader /\ Judged
+(* one wrapper per Lexer action.  When LexerData!CaseLogActions is TRUE every step taken prints
+   <<"HA", action>>, so that the harness can count how often each action of the machine was taken
+   (TLC's own -coverage walks the data module and is unusable with it). *)
+Logged(name) == CaseLogActions => PrintT(<<"HA", name>>)
+
+TSkipLinebreak      == Running /\ SkipLinebreak /\ Judged /\ Logged("SkipLinebreak")
+TSkipToToken        == Running /\ SkipToToken /\ Judged /\ Logged("SkipToToken")
+TSkipToMurky        == Running /\ SkipToMurky /\ Judged /\ Logged("SkipToMurky")
+TAtEnd              == Running /\ AtEnd /\ Judged /\ Logged("AtEnd")
+TReadSymbol         == Running /\ ReadSymbol /\ Judged /\ Logged("ReadSymbol")
+TReadIdentOrKeyword == Running /\ ReadIdentOrKeyword /\ Judged /\ Logged("ReadIdentOrKeyword")
+TReadInt            == Running /\ ReadInt /\ Judged /\ Logged("ReadInt")
+TReadString         == Running /\ ReadString /\ Judged /\ Logged("ReadString")
+TReadChar           == Running /\ ReadChar /\ Judged /\ Logged("ReadChar")
+TNoReader           == Running /\ NoReader /\ Judged /\ Logged("NoReader")
 
 (* a verdict has been reached: nothing more is compared *)
 TVerdict == verdict \notin {"idle", "run"} /\ UNCHANGED tvars
